@@ -227,6 +227,27 @@ def specOp (O : Oracles) (op : String) (a : Array String) : Option (M String) :=
         match Spec.verifyInternal P O.h O.g nG (8 + 1360 * O.fuelScale) (parseHex (arg 1)) (parseHex (arg 2)) (parseHex (arg 3)) with
         | some b => pure (toString b)
         | none => throw (Fault.fuel "spec_verify"))
+    | "spec_api_verify" => some (
+        -- Algorithms 3 / 5: <set> <mode> <pk> <M> <ctx> <sigma>
+        let r := match arg 1 with
+          | "pure" => Spec.verify P O.h O.g nG (8 + 1360 * O.fuelScale) (parseHex (arg 2)) (parseHex (arg 3)) (parseHex (arg 5)) (parseHex (arg 4))
+          | md => Spec.hashVerify P O.h O.g O.sha256 O.sha512 nG (8 + 1360 * O.fuelScale) (parseHex (arg 2)) (parseHex (arg 3)) (parseHex (arg 5)) (parseHex (arg 4))
+                    (if md == "sha256" then .sha256 else if md == "sha512" then .sha512 else .shake128)
+        match r with
+        | some b => pure (toString b)
+        | none => throw (Fault.fuel "spec_api_verify"))
+    | "spec_api_sign" => some (
+        -- Algorithms 2 / 4 with the generator's answer: <set> <mode> <sk> <M> <ctx> <rnd | null>
+        let rbg := if arg 5 == "null" then none else some (parseHex (arg 5))
+        let att := 65535 / P.l
+        let r := match arg 1 with
+          | "pure" => Spec.sign P O.h O.g nG (8 + 1360 * O.fuelScale) att (parseHex (arg 2)) (parseHex (arg 3)) (parseHex (arg 4)) rbg
+          | md => Spec.hashSign P O.h O.g O.sha256 O.sha512 nG (8 + 1360 * O.fuelScale) att (parseHex (arg 2)) (parseHex (arg 3)) (parseHex (arg 4))
+                    (if md == "sha256" then .sha256 else if md == "sha512" then .sha512 else .shake128) rbg
+        match r with
+        | some (some sig) => pure s!"ok {toHex sig}"
+        | some none => pure "bottom"
+        | none => throw (Fault.fuel "spec_api_sign"))
     | _ => none
 
 /-- per-parameter-set operations -/
